@@ -169,6 +169,17 @@ def body(c, ctx):
             if a.shape != b.shape or not np.allclose(a, b, rtol=0, atol=1e-11 * mag):
                 ctx.fail('affine_vs_iso', f'{name}: shapes {a.shape}/{b.shape}, max diff '
                          f'{np.abs(a - b).max() if a.shape == b.shape else "-"}', **sig)
+    # ---------------------------------------------------------------- affine mapping restricted to a subset at construction
+    if simplex and order == 1 and tind is not None:
+        sub = MappingAffine(m, tind=tind)         # documented: stores only these cells, in this order; per-call tind ignored
+        for name, a, b in [('F', F, sub.F(X)), ('F(tind)', F, sub.F(X, tind)), ('DF', DF, sub.DF(X)), ('invDF', invDF, sub.invDF(X)),
+                           ('detDF', detDF, sub.detDF(X)), ('invF', Xb, sub.invF(F))]:
+            b = np.asarray(b)
+            mag = 1.0 + np.abs(b).max()
+            if a.shape != b.shape or not np.allclose(a, b, rtol=0, atol=1e-11 * mag):
+                ctx.fail('affine_subset_at_construction', f'{name}: shapes {a.shape}/{b.shape}, max diff '
+                         f'{np.abs(a - b).max() if a.shape == b.shape else "-"}', **sig)
+                break
     # ---------------------------------------------------------------- facet maps
     if kind == 'wedge' or dim == 1:
         return
